@@ -23,7 +23,7 @@ int main(int argc, char** argv) {
 #define PUNP(SUF, PS) add_prop("p_unproject" #SUF, 7, 2e-2, 1e-7, [](auto const* x) { using T = TY(x); auto p = ldv<3, T>(x); auto ax = ldv<3, T>(x + 3); \
     if (!(glm::length(ax) > T(0.3))) return T(-1); \
     auto model = glm::translate(glm::mat<4, 4, T, glm::defaultp>(T(1)), glm::vec<3, T, glm::defaultp>(T(0), T(0), T(-6))) * glm::rotate(glm::mat<4, 4, T, glm::defaultp>(T(1)), x[6], ax); \
-    auto proj = glm::perspectiveRH##SUF(T(1), T(1.3), T(0.5), T(30)); glm::vec<4, T, glm::defaultp> vp(T(0), T(0), T(640), T(480)); \
+    auto proj = glm::perspectiveRH##SUF(T(1), T(1.3), T(0.5), T(30)); glm::vec<4, T, glm::defaultp> vp(T(37), T(11), T(640), T(480)); \
     auto w = glm::project##PS(p, model, proj, vp); auto b = glm::unProject##PS(w, model, proj, vp); \
     return std::max(std::abs(b.x - p.x), std::max(std::abs(b.y - p.y), std::abs(b.z - p.z))); });
   PUNP(_NO, NO) PUNP(_ZO, ZO)
@@ -43,6 +43,13 @@ int main(int argc, char** argv) {
   add_unit(nm("project", {0}), 39, 3, [](auto const* x, auto* o) { using T = TY(o); stv(o, glm::projectNO(ldv<3, T>(x), ldm<4, 4, T>(x + 3), ldm<4, 4, T>(x + 19), ldv<4, T>(x + 35))); });
   add_unit(nm("project", {1}), 39, 3, [](auto const* x, auto* o) { using T = TY(o); stv(o, glm::projectZO(ldv<3, T>(x), ldm<4, 4, T>(x + 3), ldm<4, 4, T>(x + 19), ldv<4, T>(x + 35))); });
   add_unit(nm("unProject", {0}), 39, 3, [](auto const* x, auto* o) { using T = TY(o); stv(o, glm::unProjectNO(ldv<3, T>(x), ldm<4, 4, T>(x + 3), ldm<4, 4, T>(x + 19), ldv<4, T>(x + 35))); });
+  // unProject(project(p)) for a projection matrix of the perspective shape [[a,0,0,0],[0,b,0,0],[0,0,c,e],[0,0,d,0]] with
+  // symbolic entries (covers perspective / infinitePerspective / symmetric frustum of either handedness), model = identity,
+  // symbolic viewport: p(3) a b c d e (5) viewport(4) — small enough for the theorem of Spec/C08 f_unprojP
+#define UNPROJP(D, PS) add_unit(nm("unprojP", {D}), 12, 3, [](auto const* x, auto* o) { using T = TY(o); typedef glm::mat<4, 4, T, glm::defaultp> M4; \
+    M4 P(T(0)); P[0][0] = x[3]; P[1][1] = x[4]; P[2][2] = x[5]; P[3][2] = x[6]; P[2][3] = x[7]; M4 I(T(1)); auto vp = ldv<4, T>(x + 8); \
+    stv(o, glm::unProject##PS(glm::project##PS(ldv<3, T>(x), I, P, vp), I, P, vp)); });
+  UNPROJP(0, NO) UNPROJP(1, ZO)
   add_unit(nm("unProject", {1}), 39, 3, [](auto const* x, auto* o) { using T = TY(o); stv(o, glm::unProjectZO(ldv<3, T>(x), ldm<4, 4, T>(x + 3), ldm<4, 4, T>(x + 19), ldv<4, T>(x + 35))); });
 #endif
   // configuration-dependent (unsuffixed / half-suffixed) builders: key = CFG (and the fixed half)
